@@ -198,6 +198,11 @@ def cornerGrid (centres : List Pt) (offsets : Option (List Pt)) (corners : Pt ×
 def roundBounds (g : List (List (Pt × Pt))) : List (List Bnd) :=
   g.map fun row => row.map fun b => (roundPt b.1, roundPt b.2)
 
+/-- `bounds[:, :, 1, :] = bounds[:, :, 0, :] + np.asarray(patch_shape)`: the high corner of every window becomes its
+low corner plus the patch shape -/
+def highFromLow (b : List (List Bnd)) (ps : Nat × Nat) : List (List Bnd) :=
+  b.map fun row => row.map fun x => (x.1, (x.1.1 + (ps.1 : Int), x.1.2 + (ps.2 : Int)))
+
 def clipBnd (s : Nat × Nat) (x : Bnd) : Bnd := ((clip0 s.1 x.1.1, clip0 s.2 x.1.2), (clip0 s.1 x.2.1, clip0 s.2 x.2.2))
 
 /-- `np.clip(bounds, [0, 0], [shape])` -/
@@ -423,7 +428,8 @@ def extractPatchesWithSlice (pixels : NDArr α) (patchCenters : List Pt) (patchS
                               (Np.tdiv patchShape.1 2, Np.tdiv patchShape.2 2))
     let offsets' := if offsets.isNone then some [((0 : Rat), (0 : Rat))] else offsets
     let init := Except.ok (full [Np.len0 patchCenters, nOffsets, Np.len0 pixels, patchShape.1, patchShape.2] cval)
-    let bounds := Np.roundBounds (Np.cornerGrid (patchCenters + Np.halfPixel patchShape) offsets' corners)
+    let bounds := Np.highFromLow
+      (Np.roundBounds (Np.cornerGrid (patchCenters + Np.halfPixel patchShape) offsets' corners)) patchShape
     let pixelBounds := Np.clipBounds bounds (Np.spatial pixels)
     sliceLoops pixels patchShape cval init pixelBounds (pixelBounds - bounds)
 
